@@ -3,7 +3,7 @@
 # Development aid: a scratch copy of the harness under /tmp/bench pointed at a scratch worktree of /repo, so that
 # seeded changes can be tried while /repo itself is in use by a long run. Nothing registered in MANIFEST.json uses it.
 set -u
-B=/tmp/bench
+B=${BENCH_DIR:-/tmp/bench}
 case "${1:-}" in
   setup)
     mkdir -p $B/verif
